@@ -155,21 +155,26 @@ struct Tracked {
 // the value as a constant, so every loop and every ledger slot inside the library call is concrete on that path; the solver
 // still decides over the symbolic v (all paths are part of the one query). One noinline instantiation per value keeps
 // clang from merging the calls back into a single call with a phi argument.
-template <uint64_t I, typename F>
+template <uint64_t I, bool WIT, typename F>
 __attribute__((noinline)) static void at_const(F& f)
 {
-    vf_witness("case-split path"); // one witness per instantiation: every value of the split must be reachable
+    if constexpr (WIT) vf_witness("case-split path"); // one witness per instantiation: every value of the split must be reachable
     f(I);
 }
-template <unsigned MAX, typename F>
+template <unsigned MAX, bool WIT = true, typename F>
 static inline void split(uint64_t v, F f)
 {
-    if constexpr (MAX == 0) { at_const<0>(f); }
-    else { if (v == MAX) at_const<MAX>(f); else split<MAX - 1>(v, f); }
+    if constexpr (MAX == 0) { at_const<0, WIT>(f); }
+    else { if (v == MAX) at_const<MAX, WIT>(f); else split<MAX - 1, WIT>(v, f); }
 }
+// the same without the per-value witnesses (histories: thousands of paths, each witness costs a counterexample trace);
+// the history leaves carry one witness instead
+template <unsigned MAX, typename F>
+static inline void split_q(uint64_t v, F f) { split<MAX, false>(v, f); }
 // ---- driver side: region registration and the checks made between kernel calls
 extern "C" __attribute__((noinline)) void lg_register(unsigned r, void* base, uint64_t bytes)
 {
+    vf_assert(bytes <= uint64_t(LG_SLOTS) * 4, "harness: the region fits the shadow array (LG_SLOTS)");
     vf_led.base[r] = (unsigned char*)base;
     vf_led.bytes[r] = bytes;
     for (unsigned i = 0; i < LG_SLOTS; i++) vf_led.shadow[r][i] = 0;
